@@ -121,6 +121,38 @@ pub fn refdec(v: &str, seed: u64) -> String {
     }
 }
 
+/// C12: a name that occurs more than once inside one object / ECMA array denotes its LAST value (the decoder reads
+/// the name-value sequence into a map in order); everything around it is read as usual.  The value text lists the
+/// properties in wire order, repeats included; the bytes come from the independent encoder, in that order.
+pub fn dupnames(v: &str) -> String {
+    fn lastwins(v: &V) -> V {
+        match v {
+            V::Object(ps) => {
+                let mut out: Vec<(Vec<u8>, V)> = vec![];
+                for (k, x) in ps {
+                    let x = lastwins(x);
+                    if let Some(slot) = out.iter_mut().find(|(k2, _)| k2 == k) { slot.1 = x; } else { out.push((k.clone(), x)); }
+                }
+                canon(&V::Object(out))
+            }
+            V::Array(vs) => V::Array(vs.iter().map(lastwins).collect()),
+            x => x.clone(),
+        }
+    }
+    let vs = match parse_vals(v) { Some(x) => x, None => return "bad-op".into() };
+    let want: Vec<V> = vs.iter().map(lastwins).collect();
+    let bytes = refcodec::encode(&vs);
+    let mut c = Cursor::new(&bytes[..]);
+    match deserialize(&mut c) {
+        Err(e) => format!("! FAIL conformant-encoding-with-repeated-name-rejected {} bytes={}", de_kind(&e), crate::util::show_bytes(&bytes)),
+        Ok(back) => {
+            let got: Vec<V> = back.iter().map(from_lib).map(|x| canon(&x)).collect();
+            if got != want { format!("! FAIL repeated-name-does-not-denote-its-last-value got={} want={} bytes={}", show_vals(&got), show_vals(&want), crate::util::show_bytes(&bytes)) }
+            else { "! ok".into() }
+        }
+    }
+}
+
 /// `rs` is a truncation prefix of `vs`
 fn trunc_prefix(rs: &[V], vs: &[V]) -> bool {
     if rs.len() > vs.len() { return false; }
